@@ -64,9 +64,14 @@ type plug struct {
 	calls      int
 	lastCaps   []pf.Capability
 	lastUnproc []string
+	metaErr    bool // get-plugin-metadata fails
+	verifyErr  bool // verify-signature fails instead of answering
 }
 
 func (p *plug) GetMetadata(ctx context.Context, req *pf.GetMetadataRequest) (*pf.GetMetadataResponse, error) {
+	if p.metaErr {
+		return nil, errors.New("scripted plugin: metadata unavailable")
+	}
 	return &pf.GetMetadataResponse{Name: "plug", Description: "d", Version: p.version, URL: "u", SupportedContractVersions: []string{"1.0"}, Capabilities: p.caps}, nil
 }
 func (p *plug) DescribeKey(ctx context.Context, req *pf.DescribeKeyRequest) (*pf.DescribeKeyResponse, error) {
@@ -82,6 +87,9 @@ func (p *plug) VerifySignature(ctx context.Context, req *pf.VerifySignatureReque
 	p.calls++
 	p.lastCaps = append([]pf.Capability(nil), req.TrustPolicy.SignatureVerification...)
 	p.lastUnproc = append([]string(nil), req.Signature.UnprocessedAttributes...)
+	if p.verifyErr {
+		return nil, errors.New("scripted plugin: verify-signature failed")
+	}
 	resp := &pf.VerifySignatureResponse{VerificationResults: map[pf.Capability]*pf.VerificationResult{}}
 	for _, c := range req.TrustPolicy.SignatureVerification {
 		switch p.verdict[c] {
@@ -146,7 +154,7 @@ func has(cs []pf.Capability, c pf.Capability) bool {
 
 func capsOf(plugin string) []pf.Capability {
 	switch plugin {
-	case "TI", "TIminEq", "TIminAbove":
+	case "TI", "TIminEq", "TIminAbove", "TImetaErr", "TIverifyErr":
 		return []pf.Capability{TI}
 	case "REV":
 		return []pf.Capability{REV}
@@ -169,7 +177,7 @@ type verdict struct {
 func model(c cell) verdict {
 	v := verdict{fail: map[trustpolicy.ValidationType]bool{}}
 	switch c.Plugin {
-	case "managerNil", "notInstalled", "tooOld", "tooOldPre", "noCap":
+	case "managerNil", "notInstalled", "tooOld", "tooOldPre", "noCap", "TImetaErr":
 		v.why = "plugin-unusable"
 		return v
 	}
@@ -222,11 +230,11 @@ type envKey struct {
 
 func main() {
 	r := lib.Start("C02", "exploration")
-	r.Rule = "every cell of {format x scheme} x 24 enforcement maps x anchor{found,notfound,loaderr} x identity x expired x chain-valid x revocation{ok,revoked,unknown,err} x plugin situation (11) x plugin verdicts x critical attribute state is executed against verifier.Verify; a cell is non-trivial and distinct by its full tuple"
+	r.Rule = "every cell of {format x scheme} x 24 enforcement maps x anchor{found,notfound,loaderr} x identity x expired x chain-valid x revocation{ok,revoked,unknown,err} x plugin situation (13) x plugin verdicts x critical attribute state is executed against verifier.Verify; a cell is non-trivial and distinct by its full tuple"
 	r.Assumptions = []string{
 		"notation-core-go (envelope parsing, integrity) is the trusted reference",
 		"all generated instants are >= 10 days away from now, so verdicts do not depend on the wall clock",
-		"plugin execution errors and non-critical extended attributes are outside the quantifier and not generated",
+		"a plugin command that fails delivers no verdict (situations TImetaErr, TIverifyErr); non-critical extended attributes are outside the quantifier and not generated",
 	}
 	now := time.Now()
 	day := 24 * time.Hour
@@ -295,7 +303,7 @@ func main() {
 
 	// ---- cell list
 	var cells []cell
-	plugins := []string{"none", "managerNil", "notInstalled", "tooOld", "tooOldPre", "noCap", "TI", "REV", "TIREV", "TIminEq", "TIminAbove"}
+	plugins := []string{"none", "managerNil", "notInstalled", "tooOld", "tooOldPre", "noCap", "TI", "REV", "TIREV", "TIminEq", "TIminAbove", "TImetaErr", "TIverifyErr"}
 	for ci, fs := range combos {
 		crits := []string{"none", "processed", "unprocessed"}
 		if fs[0] == lib.MediaCOSE {
@@ -314,6 +322,9 @@ func main() {
 									}
 									if has(capsOf(plugin), REV) {
 										vREVs = []string{"success", "failure", "missing"}
+									}
+									if plugin == "TImetaErr" || plugin == "TIverifyErr" {
+										vTIs = []string{"missing"} // a command that fails delivers no verdict
 									}
 									for _, vTI := range vTIs {
 										for _, vREV := range vREVs {
@@ -400,6 +411,10 @@ func main() {
 		case "tooOldPre":
 			p.caps = []pf.Capability{TI}
 			p.version = "2.0.0-rc.1"
+		case "TImetaErr":
+			p.metaErr = true
+		case "TIverifyErr":
+			p.verifyErr = true
 		case "TIminEq":
 			p.version = "2.0.0+build.7"
 		case "TIminAbove":
